@@ -3,6 +3,8 @@ Helper lemmas for C13, part 4: every write operation preserves the store invaria
 depend only on the set of stored intentions.
 -/
 import CV.Proofs.IxnStore
+set_option linter.unusedSimpArgs false
+set_option linter.unusedVariables false
 namespace CV.Ixn
 
 /-! ### validation implies distinct sources -/
@@ -277,6 +279,19 @@ theorem storeWF_runE {st st' : Store} (h : StoreWF st) (ops : List Op) (ho : ∀
 
 /-- the two stores hold the same intentions (in whatever representation, entry order, source order) -/
 def SameSet (a b : Store) : Prop := ∀ i, i ∈ flatten a ↔ i ∈ flatten b
+
+/-- the answers a store gives: the full list, every match list, both decisions -/
+def SameAnswers (a b : Store) : Prop :=
+  listAll a = listAll b ∧
+  (∀ side n, matchList a side n = matchList b side n) ∧
+  (∀ s d da ap, checkDecision a s d da ap = checkDecision b s d da ap) ∧
+  (∀ peer s d da ap, authzDecision a peer s d da ap = authzDecision b peer s d da ap)
+
+theorem sameSet_of_listAll_eq {a b : Store} (h : listAll a = listAll b) : SameSet a b := by
+  intro i
+  have ha : i ∈ listAll a ↔ i ∈ flatten a := mem_isort
+  have hb : i ∈ listAll b ↔ i ∈ flatten b := mem_isort
+  rw [← ha, ← hb, h]
 
 theorem inMatch_congr {F G : List Ixn} (h : ∀ i, i ∈ F ↔ i ∈ G) (side : Side) (n : Name) (i : Ixn) :
     inMatch F side n i ↔ inMatch G side n i := by
